@@ -738,9 +738,10 @@ impl CheckImpl for C20 {
         match tier {
             Tier::Quick => {
                 jobs.push((format!("pairs:{}:6:{}", mix(seed, 0xC, 0) % light_len, seed % 1000), "FFT64Ref", 8, 1));
-                jobs.push((format!("pairs:{}:4:{}", mix(seed, 0xC, 1) % light_len, seed % 1000), "NTT120Ref", 8, 1));
+                // the NTT120 backends cost 40-70 s per pair under Miri
+                jobs.push((format!("pairs:{}:2:{}", mix(seed, 0xC, 1) % light_len, seed % 1000), "NTT120Ref", 8, 1));
                 jobs.push((format!("pairs:{}:5:{}", mix(seed, 0xC, 2) % light_len, seed % 1000), "FFT64Avx", 8, 1));
-                jobs.push((format!("pairs:{}:2:{}", mix(seed, 0xC, 3) % light_len, seed % 1000), "NTT120Avx", 16, 1));
+                jobs.push((format!("pairs:{}:1:{}", mix(seed, 0xC, 3) % light_len, seed % 1000), "NTT120Avx", 16, 1));
             }
             Tier::Thorough => {
                 // whole inventory on three backends; NTT120Avx costs ~45 s per pair under Miri: a rotating sample
@@ -777,8 +778,9 @@ impl CheckImpl for C20 {
                     loop {
                         let job = queue.lock().unwrap().pop_front();
                         let Some((sc, be, n, k)) = job else { break };
+                        let t = std::time::Instant::now();
                         let r = miri_run(&sc, &be, n, first, first + k);
-                        results.lock().unwrap().push((sc, be, n, k, r));
+                        results.lock().unwrap().push((sc, be, n, k, r, t.elapsed().as_secs_f64()));
                     }
                 })
             })
@@ -788,8 +790,8 @@ impl CheckImpl for C20 {
         }
         let mut results = std::mem::take(&mut *results.lock().unwrap());
         results.sort_by(|a, b| (&a.0, &a.1).cmp(&(&b.0, &b.1)));
-        for (sc, be, n, k, r) in results {
-            let mut run = json!({"scenario": sc, "backend": be, "n": n, "seeds": format!("{first}..{}", first + k), "ok": r.0});
+        for (sc, be, n, k, r, secs) in results {
+            let mut run = json!({"scenario": sc, "backend": be, "n": n, "seeds": format!("{first}..{}", first + k), "ok": r.0, "wall_s": secs.round()});
             if r.0 && !r.1.is_empty() {
                 run["note"] = json!(r.1);
             }
